@@ -124,6 +124,21 @@ def build_w2c2(outdir, flags=("-O1",), defs=None, cc="gcc", name="w2c2", ldflags
     return exe
 
 
+def build_w2c2_cmake(outdir, build_type=None):
+    """The translator built the project's own way: cmake (with the given CMAKE_BUILD_TYPE, or the default) + ninja, out of tree."""
+    os.makedirs(outdir, exist_ok=True)
+    cfg = ["cmake", "-G", "Ninja", "-S", os.path.join(REPO, "w2c2"), "-B", outdir] + (["-DCMAKE_BUILD_TYPE=" + build_type] if build_type else [])
+    rc, out, err = run(cfg, timeout=300)
+    if rc == 0:
+        rc, out, err = run(["cmake", "--build", outdir, "--target", "w2c2"], timeout=600)
+    if rc != 0:
+        raise MachineryError("cannot build w2c2 with cmake (%s): %s" % (build_type or "default", (out + err)[-1500:]))
+    exe = os.path.join(outdir, "w2c2")
+    if not os.path.exists(exe):
+        raise MachineryError("cmake build produced no w2c2 executable (%s)" % (build_type or "default"))
+    return exe
+
+
 # ------------------------------------------------------------------ TLC
 TLC_STATS = re.compile(r"(\d+) states generated, (\d+) distinct states found")
 
